@@ -157,7 +157,11 @@ pub fn c04_case(start: &Pos, moves: &[Move], use_startpos: bool, probes: &[u16],
         let parent_for_generation = if gen_alive { &gen_b } else { &txt_b };
         let succ = catch(|| gen_all(parent_for_generation, z)).map_err(|e| format!("generate_moves panicked at '{}': {}", p.fen(), e))?;
         for s in &succ {
-            let t = desc_text(s);
+            // printed by the engine's own bestmove printer
+            let t = engine_bestmove_text(s).map_err(|e| format!("at '{}': {}", p.fen(), e))?;
+            if parse_mv(&t).is_none() {
+                return Err(format!("at '{}' the engine prints its generated move {} as {:?}, which is not a move in UCI notation", p.fen(), desc_text(s), t));
+            }
             let mut copy = txt_b.clone();
             catch(|| verif_make_move(&mut copy, &t, z)).map_err(|e| format!("replaying the engine's own move {} at '{}' panicked: {}", t, p.fen(), e))?;
             let d = same_board(&copy, s);
